@@ -332,7 +332,11 @@ def handleContent (j : Json) : Json :=
     ("branches", jstrs branches)]
 
 def handleFlat (j : Json) : Json :=
-  let cell : Cell := ⟨parseLoc (getStr j "in"), parseSty (getStr j "style"), getBool j "explode"⟩
+  -- the document may leave out style, explode or both ("useDefaults"): the cell is what SerializationMethod makes of it
+  let omitS := getBool j "omitStyle" || getBool j "useDefaults"
+  let omitE := getBool j "omitExplode" || getBool j "useDefaults"
+  let cell : Cell := smOf (parseLoc (getStr j "in")) (if omitS then none else some (parseSty (getStr j "style")))
+    (if omitE then none else some (getBool j "explode"))
   let name := chars (getStr j "name")
   let sch := parseSch (getD j "schema" .null)
   let p : Param := ⟨cell, name, getBool j "required", getBool j "allowEmpty", sch⟩
@@ -375,6 +379,7 @@ def handleFlat (j : Json) : Json :=
     [valBranch om.val] ++
     (if oracle.isSome then ["roundtrip"] else []) ++
     (if earlyAbsent cell r then ["early.absent"] else []) ++
+    (if omitS && omitE then ["sm.bothDefaulted"] else if omitS then ["sm.styleDefaulted"] else if omitE then ["sm.explodeDefaulted"] else []) ++
     (if resp then ["mode.responseHeader"] else []) ++
     (if hasAlt then ["deep.orderDependent"] else []) ++
     (if unsupported then ["unsupported.notCompared"] else []) ++
